@@ -919,6 +919,10 @@ int parity_read(struct snapraid_parity_handle* handle, block_off_t pos, unsigned
 
 	offset = pos * (data_off_t)block_size;
 
+	/* callers classify a failure looking at errno, but not all the failing */
+	/* paths set it: clear it to not inherit the EIO of a previous read */
+	errno = 0;
+
 	split = parity_split_find(handle, &offset);
 	if (!split) {
 		/* LCOV_EXCL_START */
